@@ -164,10 +164,14 @@ def impl(t, case):
     b = Built(u, mk_origin)
     # twins whose ids are to be re-issued are built and detached before the tree exists
     late = []
+    late_keep = []
     for f in foreign_ts:
         mode = f.args[0].decode()
         if mode.startswith("reissued"):
             o = b.build(f.args[1])
+            # a Tree of the twin, built while it was registered, stays referenced: a later tree of another root
+            # (which is re-issued the twin's id) must not be confused with it
+            late_keep.append(o.to_tree())
             o.detach()
         else:
             late.append(f)
@@ -178,7 +182,7 @@ def impl(t, case):
     for f in foreign_ts:
         args_t += list(iter_nodes(f.args[1]))
     objs = [b.objs[n.args[0]] for n in args_t]
-    tree = Tree(root) if len(objs) % 2 else root.to_tree()
+    tree = Tree(root) if (len(objs) % 2 and not late_keep) else root.to_tree()
 
     def cls_of(name):
         return ASTNode if name == "ASTNode" else getattr(mod, name)
